@@ -280,43 +280,50 @@ func runC17(c *core.Ctx) {
 		c.Undischarged("C17-R1", "anchor:RoundTimer.done", err.Error())
 		return
 	}
+	isDoneCall := func(ci ssa.CallInstruction, _ string) bool {
+		// callee is (a copy of) a load of t.done
+		ld, ok := ci.Common().Value.(*ssa.UnOp)
+		if !ok || ld.Op != token.MUL {
+			return false
+		}
+		fa, ok := ld.X.(*ssa.FieldAddr)
+		return ok && fieldVar(fa) == fv
+	}
+	// the invocation sites reachable from waitForRound (through its closures and private helpers) …
+	fromWait := map[ssa.Instruction]bool{}
 	n := 0
+	if wf := fn(c, "C17-R1", rt+"waitForRound"); wf != nil {
+		for _, s := range callsWhere(wf, isDoneCall) {
+			n++
+			fromWait[s.Instr] = true
+			ci := s.Instr
+			facts := s.Facts(c)
+			arg := ""
+			if len(ci.Common().Args) == 1 {
+				arg = s.Arg(c, 0).String()
+			}
+			c.Decide(arg == "p1", "C17-R1", "waitForRound|callback argument is the armed round", c.P.Pos(ci.Pos()), arg, "the callback is invoked with "+arg+" instead of the round this goroutine was armed for")
+			for _, r := range []Req{
+				{"timer-channel-case", "eq(1, select(<-context.Context.Done(*), <-p2)#0)", "the callback fires on timer expiry only, not on cancellation"},
+				{"armed-round-still-current", "eq(p1, " + rtN + "RoundTimer.Round(p0))", "a superseded arming must not fire"},
+				{"callback-set", "nonnil(p0.done)", ""},
+				{"read-locked", "deferred(sync.RWMutex.RUnlock(p0.mtx))", "t.done is read under the lock"},
+			} {
+				k, ok := facts.Has(r.Pat)
+				c.Decide(ok, "C17-R1", "waitForRound|"+r.Name, c.P.Pos(ci.Pos()), clip(k), "the timeout callback can fire without "+r.Pat+" — "+r.Why)
+			}
+		}
+	}
+	// … are the only ones
 	for _, f := range c.P.SourceFuncs(rtPkg) {
-		a := c.E.Analyze(f)
 		for _, b := range f.Blocks {
 			for _, in := range b.Instrs {
 				ci, ok := in.(ssa.CallInstruction)
-				if !ok {
+				if !ok || !isDoneCall(ci, "") {
 					continue
 				}
-				// callee is (a copy of) a load of t.done
-				v := ci.Common().Value
-				ld, ok := v.(*ssa.UnOp)
-				if !ok || ld.Op != token.MUL {
-					continue
-				}
-				fa, ok := ld.X.(*ssa.FieldAddr)
-				if !ok || fieldVar(fa) != fv {
-					continue
-				}
-				n++
 				encl := enclName(f)
-				c.Decide(encl == rtN+"RoundTimer.waitForRound", "C17-R1", "RoundTimer.done|invoked from "+encl, c.P.Pos(ci.Pos()), "only waitForRound fires the callback", "the timeout callback is fired from "+encl)
-				facts := a.FactsAt(ci)
-				arg := ""
-				if len(ci.Common().Args) == 1 {
-					arg = a.D.D(ci.Common().Args[0]).String()
-				}
-				c.Decide(arg == "p1", "C17-R1", "waitForRound|callback argument is the armed round", c.P.Pos(ci.Pos()), arg, "the callback is invoked with "+arg+" instead of the round this goroutine was armed for")
-				for _, r := range []Req{
-					{"timer-channel-case", "eq(1, select(<-context.Context.Done(*), <-p2)#0)", "the callback fires on timer expiry only, not on cancellation"},
-					{"armed-round-still-current", "eq(p1, " + rtN + "RoundTimer.Round(p0))", "a superseded arming must not fire"},
-					{"callback-set", "nonnil(p0.done)", ""},
-					{"read-locked", "deferred(sync.RWMutex.RUnlock(p0.mtx))", "t.done is read under the lock"},
-				} {
-					k, ok := facts.Has(r.Pat)
-					c.Decide(ok, "C17-R1", "waitForRound|"+r.Name, c.P.Pos(ci.Pos()), clip(k), "the timeout callback can fire without "+r.Pat+" — "+r.Why)
-				}
+				c.Decide(fromWait[in], "C17-R1", "RoundTimer.done|invoked from "+encl, c.P.Pos(ci.Pos()), "reached only from waitForRound", "the timeout callback is fired from "+encl+", outside waitForRound")
 			}
 		}
 	}
